@@ -500,6 +500,21 @@ func TestBoltNut(t *testing.T) {
 				}
 			}
 			rec.Add("boltnut:tapped-blocks-built-first", 1)
+			// the tapped hole itself (ThreadedCylinderParms works in millimetres whatever the units of the
+			// designation): a block three thread radii in radius, cut at tolerance 0 - a point at
+			// 0.6 of the nominal radius lies in the hole, a point at twice the nominal radius lies in the material
+			mm := tp.ToMillimetre()
+			blk, err := (&obj.ThreadedCylinderParms{Height: 12 * mm.Pitch, Diameter: 6 * mm.Radius, Thread: std.name, Tolerance: 0}).Object()
+			if err != nil {
+				t.Fatalf("ThreadedCylinderParms.Object (mm block) for %s: %v", std.name, err)
+			}
+			a := g.Angle(t, "tapped.angle")
+			at := func(f float64) float64 {
+				return blk.Evaluate(v3.Vec{X: f * mm.Radius * math.Cos(a), Y: f * mm.Radius * math.Sin(a), Z: 0.3 * mm.Pitch})
+			}
+			if v1, v2 := at(0.6), at(2); !(v1 > 0 && v2 < 0) {
+				rec.Violation(t, "ThreadedCylinderParms:hole-does-not-have-the-thread-radius", "%s (nominal radius %v mm, pitch %v mm), block of radius %v mm tapped at tolerance 0: value %v at 0.6 of the radius (must be in the hole, > 0), %v at twice the radius (must be material, < 0)", std.name, mm.Radius, mm.Pitch, 3*mm.Radius, v1, v2)
+			}
 		}
 		bolt, err := obj.Bolt(bp)
 		if err != nil {
